@@ -39,6 +39,8 @@ pub fn func_edit_profile() -> Profile {
 
 pub fn global_edit_profile() -> Profile {
     let mut p = Profile::base("global-edit");
+    // GC types so that aggregate initialisers (several references in one initialiser) can be generated
+    p.gc_types = true;
     p.modes = vec![Mode::Before, Mode::After, Mode::Alternate, Mode::EmptyAlternate, Mode::Before, Mode::After, Mode::FuncEntry, Mode::FuncExit];
     p.max_globals = 4;
     p.atomics = true;
